@@ -239,3 +239,34 @@ void h_setnfloat_byname(void)
 	CHECK("C14", rc != CFG_SUCCESS || o.values[0]->fpnumber == v, "float by-name setter stores the value");
 	CANARY("setnfloat_byname");
 }
+
+/* ------------------------------------------------------------------------------------------------ getters (C01 C09)
+ * contract::cfg_opt_getn<type>(opt, index): an option of another type or NULL -> the zero value, errno EINVAL;
+ * index < count -> exactly the stored value; otherwise the user's variable of a simple option, else the zero value.
+ * Nothing is modified. */
+static void b_getters(unsigned n)
+{
+	cfg_opt_t o; snap_t s; unsigned idx = nondet_uint(); cfg_type_t t;
+	unsigned k = nondet_uint();
+	t = k == 0 ? CFGT_INT : k == 1 ? CFGT_FLOAT : k == 2 ? CFGT_BOOL : k == 3 ? CFGT_STR : CFGT_PTR;
+	if (k == 0) mk_opt(&o, CFGT_INT, n, 0); else if (k == 1) mk_opt(&o, CFGT_FLOAT, n, 0); else if (k == 2) mk_opt(&o, CFGT_BOOL, n, 0); else if (k == 3) mk_opt(&o, CFGT_STR, n, 0); else mk_opt(&o, CFGT_PTR, n, 0);
+	snap(&o, &s);
+	{
+		long gi = cfg_opt_getnint(&o, idx); cfg_bool_t gb = cfg_opt_getnbool(&o, idx); char *gs = cfg_opt_getnstr(&o, idx); void *gp = cfg_opt_getnptr(&o, idx); cfg_t *gsec = cfg_opt_getnsec(&o, idx);
+		_Bool in = idx < n;
+		CHECK("C01,C09", t == CFGT_INT ? gi == (in ? o.values[idx]->number : 0) : gi == 0, "the integer getter returns exactly the stored value at that index (0 for other types or beyond the end)");
+		CHECK("C01,C09", t == CFGT_BOOL ? gb == (in ? o.values[idx]->boolean : cfg_false) : gb == cfg_false, "the boolean getter returns exactly the stored value at that index");
+		CHECK("C01,C09", t == CFGT_STR ? gs == (in ? o.values[idx]->string : NULL) : gs == NULL, "the string getter returns exactly the stored string at that index");
+		CHECK("C01,C09", t == CFGT_PTR ? gp == (in ? o.values[idx]->ptr : NULL) : gp == NULL, "the pointer getter returns exactly the stored pointer at that index");
+		CHECK("C09", gsec == NULL, "the section getter answers NULL for an option that is not a section");
+		if (t == CFGT_FLOAT && in && !__CPROVER_isnand(o.values[idx]->fpnumber)) CHECK("C01,C09", cfg_opt_getnfloat(&o, idx) == o.values[idx]->fpnumber, "the float getter returns exactly the stored value at that index");
+		CHECK("C01,C09", cfg_opt_size(&o) == n && cfg_opt_getcomment(&o) == o.comment && cfg_opt_name(&o) == o.name, "size, annotation and name getters return the stored fields");
+		CHECK("C09", same(&o, &s), "getters modify nothing");
+	}
+	CHECK("C09", cfg_opt_getnint(NULL, 0) == 0 && cfg_opt_getnstr(NULL, 0) == NULL && cfg_opt_size(NULL) == 0 && cfg_opt_getnsec(NULL, 0) == NULL, "getters on a NULL option answer the zero value");
+}
+void h_getters(void)
+{
+	FOR_RESET_FLAGS(FOR_EACH_COUNT(b_getters));
+	CANARY("getters");
+}
